@@ -121,6 +121,13 @@ def c18_extras(seed, tier):
         a, b1, b2 = np.array([0.11, 0.17]), np.array([0.31, 0.28]), np.array([0.07, 0.41])
         return C(np.diag([1., 1.3]), [[a, gl(a)], [b1, gl(b1), b2, gl(b2)]])
     out.append(('glide-line-2D-two-species', glide2d))
+    def rutile(order='TiO'):
+        u = 0.305
+        Ti = [np.zeros(3), .5 * np.ones(3)]
+        O = [np.array([u, u, 0.]), np.array([-u, -u, 0.]), np.array([.5 + u, .5 - u, .5]), np.array([.5 - u, .5 + u, .5])]
+        return C(np.diag([1., 1., 0.64]), [Ti, O] if order == 'TiO' else [O, Ti], chemistry=list(('Ti', 'O') if order == 'TiO' else ('O', 'Ti')))
+    out.append(('rutile-TiO', lambda: rutile('TiO')))
+    out.append(('rutile-OTi', lambda: rutile('OTi')))
     out.append(('NOSYM-2D-two-atoms', lambda: C(np.eye(2), [[np.zeros(2), np.array([0.3, 0.1])]], NOSYM=True)))
     out.append(('NOSYM-2D-one-atom', lambda: C(np.eye(2), [[np.zeros(2)]], NOSYM=True)))
     out.append(('NOSYM-3D', lambda: C(np.eye(3), [[np.zeros(3), np.array([0.3, 0.1, 0.2])]], NOSYM=True)))
@@ -426,8 +433,13 @@ def w_jumps(arg):
             jump_contract(acc, c, 'close-pairs-2D', 0, cutoff, cd, 'chem 0 cutoff %.4f closest %r' % (cutoff, cd))
         acc.sample = {'crystal': 'close-pairs-2D', 'checked': 'obstruction distance larger than the cutoff and comparable to the cell'}
         return acc.result()
-    cid, f = catalogue.builders(tier, seed)[idx]
-    e = f(); c = e['crys']; acc = Acc(cid)
+    if isinstance(idx, str) and idx.startswith('extra:'):
+        # crystals whose symmetry search has to discard candidate translations that map one species but not the other
+        cid = idx[6:]; c = dict(c18_extras(seed, tier))[cid](); idx = sum(map(ord, cid))
+    else:
+        cid, f = catalogue.builders(tier, seed)[idx]
+        e = f(); c = e['crys']
+    acc = Acc(cid)
     rng = np.random.default_rng(seed * 11 + idx)
     for chem in range(len(c.basis)):
         for nshell in ((1, 2) if tier == 'quick' else (1, 2, 3)):
